@@ -64,3 +64,21 @@ func ruleTableOptions(p *Prog, r *Report, rule string) {
 	}
 	r.Check(nW >= 2 && nR >= 2, "leveldb", "sites", "table writers and readers are created in tOps and in recoverTable", fmt.Sprintf("%d NewWriter, %d NewReader call sites", nW, nR), "")
 }
+
+// ruleMemdbComparer: every in-memory buffer of a DB orders INTERNAL keys, so it must be created
+// with the session's internal-key comparer (never the user's raw comparer).
+func ruleMemdbComparer(p *Prog, r *Report, rule string) {
+	r.Begin(rule, "E-FLOW", "every memdb.New in package leveldb is given the session's internal-key comparer (session.icmp)", 3)
+	defer r.End()
+	n := 0
+	for _, fn := range p.SrcFuncs("leveldb") {
+		for _, c := range findCalls(fn, "leveldb/memdb.New") {
+			n++
+			r.Site(1)
+			r.Fn(fnName(fn))
+			ok := originsAll(callCommon(c).Args[0], func(l ssa.Value) bool { return isFieldLoad(l, "leveldb.session", "icmp") })
+			r.Check(ok, fnName(fn), "memdb-comparer@"+branchLabel(c), "the buffer orders internal keys with session.icmp", "memdb.New at "+p.Pos(c.Pos())+" is given another comparer: versions of one user key would be ordered by the raw comparer on internal keys", p.Pos(c.Pos()))
+		}
+	}
+	r.Check(n >= 3, "leveldb", "sites", "buffers are created in newMem and in both journal replays", fmt.Sprintf("%d memdb.New call sites", n), "")
+}
